@@ -9,9 +9,13 @@ from harness import common as C
 from harness import fd
 
 IMPORTS = "From FDAV Require Import Base.Num Base.Vec Base.Quad Base.Cmp Model.Scores Tie.C03."
+# (madd from Base.Vec is used to sum the per-component score matrices of MFPCA)
 F2 = "F2"
 F2_WHAT = ("UFPCA.transform(data) with normalize=True rescales the UNCENTRED data (data.rescale instead of data_new.rescale): explicit "
            "scoring of the training curves differs from scoring the stored training data (suite pins the uncentred scores)")
+F18_WHAT = ("MFPCA.fit centres the training data with a P-spline-SMOOTHED version of the mean it reports "
+            "(center(mean, method_smoothing='PS')): the stored training data are not the curves minus MFPCA.mean, so "
+            "transform(None) differs from scoring the training curves with the reported mean (suite pins it)")
 RULE = ("dense 1-D datasets of exact rank r (n_obs 4..9 / 4..30, 5..12 / 5..40 points, five grid kinds, offsets, scales) and 2-D datasets "
         "(inner-product method): every combination method x normalize x n_components in {1, 2, r}: stored-data NumInt / InnPro scores vs "
         "the exact Q model fed with the implementation's mean, weight, eigenfunctions; score cross-products (n-1)*lambda (covariance) and "
@@ -137,6 +141,8 @@ def run(rep, props, replay=None):
                         rep.notes.append(f"PACE raised {type(e).__name__}: {e}"[:160])
         if i % 3 == 0:
             two_d(rep, rng, runq, todo)
+        if i % 3 == 1:
+            mfpca_part(rep, rng, runq, todo, i)
     res = runq.run()
     seen = set()
     for t, td, what, key, opts in todo:
@@ -147,10 +153,64 @@ def run(rep, props, replay=None):
         if res[t]:
             continue
         rep.disagreements_checked += 1
-        if td is not None and res[td]:
+        if isinstance(td, tuple):
+            if res[td[1]]:
+                rep.known_finding(td[0], F18_WHAT, opts)
+                continue
+        elif td is not None and res[td]:
             rep.known_finding(F2, F2_WHAT, opts)
             continue
         rep.violation(what + " — fails", {**opts, "claim": what, "X": C.hexf(np.frombuffer(key[1]))})
+
+
+def mfpca_part(rep, rng, runq, todo, i):
+    """MFPCA: numerical-integration scores are the SUM over components of the univariate integrals; scoring the
+    training data passed explicitly must equal scoring the stored training data (finding F2 with normalize=True)."""
+    from FDApy.preprocessing.dim_reduction.mfpca import MFPCA
+    n = 7
+    x1, x2 = np.linspace(0, 1, 9), fd.grid(rng, 8, "nonuniform")
+    lat = np.round(rng.normal(size=(n, 2)) * 8) / 8
+    X1 = lat @ np.array([np.sin(np.pi * x1), np.cos(np.pi * x1)]) + 2.0
+    u2 = (x2 - x2[0]) / (x2[-1] - x2[0])
+    X2 = 3.0 * (lat @ np.array([u2, u2 ** 2])) - 1.0
+    data = fd.multivariate([fd.dense(x1, X1), fd.dense(x2, X2)])
+    for normalize in (False, True):
+        try:
+            with warnings.catch_warnings():
+                warnings.simplefilter("ignore")
+                f = MFPCA(n_components=2, method="inner-product", normalize=normalize)
+                f.fit(data, method_smoothing=None)
+                S0 = np.asarray(f.transform(None, method="NumInt"), float)
+                S1 = np.asarray(f.transform(data, method="NumInt", method_smoothing=None), float)
+                E = [np.asarray(c.values, float) for c in f.eigenfunctions.to_grid().data]
+        except Exception as e:  # noqa: BLE001
+            rep.notes.append(f"MFPCA part raised {type(e).__name__}: {e}"[:200])
+            continue
+        if not (np.all(np.isfinite(S0)) and all(np.all(np.isfinite(e_)) for e_ in E)):
+            continue
+        wts = np.asarray(f.weights, float) if normalize else np.ones(2)
+        mus = [np.asarray(c.values, float)[0] for c in f.mean.data]
+        ss = [float(np.sqrt(w_)) for w_ in wts]
+        sc = max(1.0, float(np.max(np.abs(S0))), float(np.max(np.abs(S1))))
+        key = ("mfpca", X1.tobytes(), normalize)
+        opts = {"grid": "multivariate", "method": "inner-product", "normalize": normalize, "n_components": 2, "n": n, "m": 17, "rank": 2}
+        def term(fn, extra):
+            parts = [f"({fn} {C.qlist(x)} {extra(p)} {C.qmat(X)} {C.qmat(E[p])})" for p, (x, X) in enumerate(((x1, X1), (x2, X2)))]
+            return f"(madd opsQ {parts[0]} {parts[1]})"
+        correct = term("transform_model", lambda p: f"{C.qlist(mus[p])} {C.qlit(ss[p])}")
+        defect = term("transform_model_uncentred", lambda p: f"{C.qlit(ss[p])}")
+        # defect model F18: fit centres with the PS-SMOOTHED mean (the very call the code makes), not with the mean it reports
+        with warnings.catch_warnings():
+            warnings.simplefilter("ignore")
+            mus_ps = [np.asarray(c.smooth(points=c.argvals, method="PS").values, float)[0] for c in f.mean.data]
+        stored_defect = term("transform_model", lambda p: f"{C.qlist(mus_ps[p])} {C.qlit(ss[p])}")
+        t = runq.add(f"mclose {C.qlit(1e-8 * sc)} {correct} {C.qmat(S0)}")
+        td18 = runq.add(f"mclose {C.qlit(1e-8 * sc)} {stored_defect} {C.qmat(S0)}")
+        todo.append((t, ("F18", td18), "MFPCA stored-data NumInt scores = sum over components of the model scores of the "
+                     "training curves centred with the reported mean", key, opts))
+        t = runq.add(f"mclose {C.qlit(1e-8 * sc)} {correct} {C.qmat(S1)}")
+        td = runq.add(f"mclose {C.qlit(1e-8 * sc)} {defect} {C.qmat(S1)}")
+        todo.append((t, td if normalize else None, "MFPCA transform(X_train) = scores of the stored training data", key, opts))
 
 
 def two_d(rep, rng, runq, todo):
